@@ -211,7 +211,7 @@ func genText(c *RunCtx, prop string) []*Batch {
 	r := c.R
 	b := &Batch{Prop: prop, Name: "text", Imports: textImports, CaseType: "tcase", ChkFn: "chk_text", OutFn: "diag_text", Codes: true, Shard: 150}
 	b.Cases = append(b.Cases, classCase())
-	n := c.N(700, 30000)
+	n := c.N(map[string]int{"C13": 1800, "C14": 1100, "C15": 2400}[prop], 30000)
 	addLex := func(tc textConf, src string, tag string) ([]eval.VerifToken, error) {
 		toks, err := eval.VerifLex(tc.conf, src)
 		obs := "None"
